@@ -72,6 +72,12 @@ func main() {
 			fmt.Sscan(os.Args[3], &n)
 		}
 		os.Exit(seqx.ReplayMain(os.Args[2], n))
+	case "diverge":
+		n := 20
+		if len(os.Args) > 3 {
+			fmt.Sscan(os.Args[3], &n)
+		}
+		os.Exit(seqx.DivergeMain(os.Args[2], n))
 	case "racepass":
 		n, seed := 50, int64(1)
 		if len(os.Args) > 2 {
